@@ -40,7 +40,7 @@ type Occ struct {
 	Value string `json:"value,omitempty"` // the argument (for "" the word itself)
 	Eq    bool   `json:"eq,omitempty"`    // written as -x=value
 	// intent of an -F/-C: the parts it was assembled from
-	LHS, Op, RHS string `json:",omitempty"`
+	LHS, Op, RHS string  `json:",omitempty"`
 	Word         *uint32 `json:"word,omitempty"` // expected value word (nil = unknown / string field)
 	Str          bool    `json:"str,omitempty"`  // string-valued field
 }
@@ -228,18 +228,18 @@ func (e ruleEnv) words() string {
 // ---- implementation run ------------------------------------------------------------------------------
 
 type rObs struct {
-	Out    string // canonical line for the model
-	Rule   rule.Rule
-	PErr   error
-	WF     []byte
-	BErr   error
-	Text   string
-	CErr   error
-	Panic  string
-	Alloc  uint64
-	Env    ruleEnv
-	Line   string
-	NoTok  bool // Join/Split does not reproduce the tokens: case skipped
+	Out   string // canonical line for the model
+	Rule  rule.Rule
+	PErr  error
+	WF    []byte
+	BErr  error
+	Text  string
+	CErr  error
+	Panic string
+	Alloc uint64
+	Env   ruleEnv
+	Line  string
+	NoTok bool // Join/Split does not reproduce the tokens: case skipped
 }
 
 func renderBytesOrErr(b []byte, err error) string {
@@ -964,6 +964,48 @@ func init() {
 	}
 }
 
+// fieldBoundaryCases: see the call site.
+func fieldBoundaryCases() []RCaseR {
+	var out []RCaseR
+	for total := 63; total <= 66; total++ {
+		for _, comp := range []string{"F", "C", "mixed"} {
+			for _, last := range []string{"F", "C", "k"} {
+				c := RCaseR{Kind: "line", Valid: total <= 64, Note: "field-boundary"}
+				add := func(oc Occ) {
+					c.Occs = append(c.Occs, oc)
+					c.Tokens = append(c.Tokens, "-"+oc.Flag, oc.Value)
+				}
+				add(Occ{Flag: "a", Value: "always,exit"})
+				n := total
+				if last == "k" {
+					n = total - 1
+				}
+				for i := 0; i < n; i++ {
+					kind := comp
+					if comp == "mixed" {
+						kind = []string{"F", "C"}[i%2]
+					}
+					if i == n-1 && last != "k" {
+						kind = last
+					}
+					if kind == "C" {
+						op := []string{"=", "!="}[i%2]
+						add(Occ{Flag: "C", LHS: "auid", Op: op, RHS: "uid", Value: "auid" + op + "uid", Word: u32(uapiCompare[compareNames["auid|uid"]])})
+					} else {
+						v := uint32(i)
+						add(Occ{Flag: "F", LHS: "pid", Op: "=", RHS: strconv.Itoa(i), Value: "pid=" + strconv.Itoa(i), Word: &v})
+					}
+				}
+				if last == "k" {
+					add(Occ{Flag: "k", Value: "bk"})
+				}
+				out = append(out, c)
+			}
+		}
+	}
+	return out
+}
+
 // genRuleLine builds a rule line (tokens + intent).
 func genRuleLine(rng *rand.Rand, wantValid bool) RCaseR {
 	c := RCaseR{Kind: "line", Valid: true}
@@ -1495,6 +1537,11 @@ func ruleFamily(ctx *Ctx) error {
 		}
 	}
 
+	// the 64-field boundary, systematically: total fields 63..66, made of filters only / comparisons only /
+	// mixed, with the field that reaches or crosses the limit being a filter, a comparison or the key
+	for _, c := range fieldBoundaryCases() {
+		run(c, "field-boundary")
+	}
 	n := ctx.N(6000, 150000)
 	res.Rule = "rule lines built from flag occurrences (every list x action, every field name x every operator with boundary and random values in decimal/hex/octal/negative/name spellings, 0..66 filters, inter-field comparisons, syscall sets by number and name incl. 'all', keys, file watches on real temp files/dirs) plus perturbed lines (stray words, junk around -F/-C values, repeated and mixed flags), hostile wire bytes (each 32-bit header word replaced by boundary values, truncations) and random Rule structs; each goes through flags.Parse -> Build -> ToCommandLine on the real code and on the model, and through the property monitors. Non-trivial = more than one flag occurrence, or hostile bytes/struct; distinct by canonical case."
 	var wires [][]byte
